@@ -12,7 +12,7 @@ func init() {
 		ID: "C24",
 		Decides: "(R24.1) in every Set function of the pool the existence test and the dependent write lie in one exclusive critical section of the pool's set lock; the write happens only on the not-found edge and `stored` is reported only after the write succeeded; " +
 			"(R24.2) ballots are written and read under the same key builder with (stage point, suffrage-confirm flag) of the ballot resp. the query; a proposal and its point index are written in one batch, the index keyed by the proposal fact's (point, proposer, previous block) and holding the fact hash, and lookup by point resolves through that stored hash; " +
-			"(R24.3) cleanup deletes a keyed entry only if its height is unparsable or not above top-minus-depth, depth steps below the newest height, with the configured depths being positive constants set only by the constructor.",
+			"(R24.3) cleanup deletes a keyed entry only if its height is unparsable or not above top-minus-depth, depth steps below the newest height, with the configured depths being positive constants set only by the constructor.; (R24.k) every leveldb key builder carries each of its parameters in full under its own prefix constant",
 		NotDecided: "first-writer-wins across process restarts; two different proposal facts for one (point, proposer, previous block) — the point index keeps the last one; leveldb's own atomicity.",
 		Run:        runC24,
 	})
@@ -62,6 +62,8 @@ func poolCleanDepthRules(c *Ctx, rule string) {
 }
 
 func runC24(c *Ctx) {
+	c.Rule("R24.k", "KeyTable")
+	keyBuilderRules(c)
 	// R24.1 --------------------------------------------------------------------------------------
 	c.Rule("R24.1", "AtomicSection")
 	for _, t := range []struct {
@@ -136,6 +138,16 @@ func runC24(c *Ctx) {
 		c.Report(fn, "ballot key depends on the stage point", fn.Pos(), retDependsOn(c, fn, "point.Bytes()"), "")
 		c.Report(fn, "ballot key depends on the suffrage-confirm flag", fn.Pos(), len(c.condsMatching(fn, "isSuffrageConfirm")) == 1, "")
 		c.Report(fn, "ballot key lives under the ballot prefix", fn.Pos(), retDependsOn(c, fn, "isaacdatabase.leveldbKeyPrefixBallot"), "")
+	}
+	if fn := c.Need("isaac/database.leveldbProposalPointKey"); fn != nil {
+		c.Report(fn, "proposal point key depends on the whole point (height and round)", fn.Pos(), retDependsOn(c, fn, "point.Bytes()"), "")
+		c.Report(fn, "proposal point key depends on the proposer", fn.Pos(), retDependsOn(c, fn, "proposer.Bytes()"), "")
+		c.Report(fn, "proposal point key depends on the previous block", fn.Pos(), retDependsOn(c, fn, "previousBlock.Bytes()"), "")
+		c.Report(fn, "proposal point key lives under the by-point prefix", fn.Pos(), retDependsOn(c, fn, "isaacdatabase.leveldbKeyPrefixProposalByPoint"), "")
+	}
+	if fn := c.Need("isaac/database.leveldbProposalKey"); fn != nil {
+		c.Report(fn, "proposal key depends on the fact hash", fn.Pos(), retDependsOn(c, fn, "h.Bytes()"), "")
+		c.Report(fn, "proposal key lives under the proposal prefix", fn.Pos(), retDependsOn(c, fn, "isaacdatabase.leveldbKeyPrefixProposal"), "")
 	}
 	if fn := c.Need("isaac/database.(*TempPool).SetProposal"); fn != nil {
 		puts := c.CallsD(fn, "*.Put(*)")
